@@ -138,7 +138,7 @@ func (w *c19World) recvMsg(sm *signaling.SessionMsg) {
 	w.sendResp(&signaling.SessionResponse{Body: &signaling.SessionResponse_RecvMsg{RecvMsg: sm}})
 }
 
-var c19Kinds = []string{"honest", "honest", "honest", "replay", "bitflip", "truncate", "alter-data", "alter-sender", "forged-claims-A", "reattributed", "wrong-context", "unsigned", "empty-body", "ctl-open", "ctl-close", "ctl-ack", "ctl-clear"}
+var c19Kinds = []string{"honest", "honest", "honest", "replay", "same-signature-new-data", "embedded-pubkey", "bitflip", "truncate", "alter-data", "alter-sender", "forged-claims-A", "reattributed", "wrong-context", "unsigned", "empty-body", "ctl-open", "ctl-close", "ctl-ack", "ctl-clear"}
 
 func (w *c19World) inject(s *dsim.Sim, kind string) {
 	A, M := w.cw.Parties["A"], w.cw.Parties["M"]
@@ -150,8 +150,10 @@ func (w *c19World) inject(s *dsim.Sim, kind string) {
 	if kind != "honest" {
 		k := kind
 		switch kind {
-		case "alter-data", "alter-sender":
+		case "alter-data", "alter-sender", "same-signature-new-data":
 			k = "alter-field"
+		case "embedded-pubkey":
+			k = "forged-claims-A"
 		case "ctl-open", "ctl-close", "ctl-ack", "ctl-clear":
 			k = "unsolicited-control"
 		}
@@ -167,6 +169,26 @@ func (w *c19World) inject(s *dsim.Sim, kind string) {
 		}
 		sm := &signaling.SessionMsg{}
 		_ = sm.UnmarshalVT(w.pool[t.Draw(len(w.pool), "replay-idx")])
+		w.recvMsg(sm)
+	case "same-signature-new-data":
+		// a message that WAS delivered honestly before, re-sent with the same signature and
+		// sender but a different payload (defeats verification caches keyed by signature)
+		if len(w.pool) == 0 {
+			w.recvMsg(w.honest(s))
+			return
+		}
+		sm := &signaling.SessionMsg{}
+		_ = sm.UnmarshalVT(w.pool[t.Draw(len(w.pool), "replay-idx")])
+		sm.SignedMsg.Data = append(append([]byte(nil), sm.SignedMsg.Data...), []byte("-altered")...)
+		note(sm)
+		w.recvMsg(sm)
+	case "embedded-pubkey":
+		// signed by M's key; M's public key is embedded in the signature object; sender says A
+		w.n++
+		body := []byte(fmt.Sprintf("embedded-%d", w.n))
+		sigObj, _ := peer.NewSignature("bifrost/signaling/rpc session msg 2024-06-05T02:45:07.208906Z", M.Priv, hash.HashType_HashType_BLAKE3, body, true)
+		sm := &signaling.SessionMsg{Seqno: uint64(w.n), SignedMsg: &peer.SignedMsg{FromPeerId: A.IDs, Data: body, Signature: sigObj}}
+		note(sm)
 		w.recvMsg(sm)
 	case "bitflip", "truncate":
 		// A's client did submit this one; the relay damages it in transit. If the damage
